@@ -392,6 +392,7 @@ def monitors(h, out, default_group=1):
     bus_blocks = set()
     nbuf = 0
     nbus = 0
+    node_ids = []               # creation index -> node id (None: constructor raised)
     bus_objs, bus_audio = {}, {}
     depth = 0
     pending = []                # messages expected at the outermost flush, for M5
@@ -410,6 +411,7 @@ def monitors(h, out, default_group=1):
             for a in op['compl']['args']:
                 if a['v'] == 'i':
                     node_known.add(a['x']); user_bufs.add(a['x'])
+        msgs = [m for ev in st['ev'] for m in event_msgs(ev)]
         live_before = set(b for b in buf_objs.values() if b is not None)
         blocks_before = set(buf_blocks)
         # what this op creates (buffers)
@@ -428,8 +430,55 @@ def monitors(h, out, default_group=1):
                 buf_objs[nbuf] = x; nbuf += 1
         else:
             created = []
-        msgs = [m for ev in st['ev'] for m in event_msgs(ev)]
         emitted_here = msgs if depth == 0 and o not in ('bind_exit',) else []
+        # node objects: own ids, numeric targets, no id burnt
+        nallocs = [a[1] for a in st['alloc'] if a[0] == 'node']
+        if st['exc'] is None:
+            want_allocs = 0
+            if o == 'synth' and op.get('ctor') != 'grain' and not (op.get('ctor') == 'replace' and op['same_id']):
+                want_allocs = 1
+            if o == 'group':
+                want_allocs = 1
+            if len(nallocs) != want_allocs:
+                bad.append((None, 'op %d (%s): %d node ids drawn from the allocator, %d objects created (ids %s)' % (
+                    i, o, len(nallocs), want_allocs, nallocs)))
+        if o == 'synth' and op.get('ctor') != 'grain':
+            if st['exc'] is not None:
+                node_ids.append(None)
+            elif op.get('ctor') == 'replace' and op['same_id']:
+                node_ids.append(node_ids[op['target']['i']])
+            else:
+                node_ids.append(nallocs[-1] if nallocs else None)
+        elif o == 'group':
+            node_ids.append(nallocs[-1] if (nallocs and st['exc'] is None) else None)
+        elif o == 'basic_new':
+            node_ids.append(op['id']); node_known.add(op['id'])
+        if depth == 0 and st['exc'] is None and o in ('synth', 'group'):
+            t = op['target']
+            want_t = {'none': default_group, 'server': default_group, 'root': 0}.get(t['t'])
+            if t['t'] == 'int':
+                want_t = t['x']
+            elif t['t'] == 'node':
+                want_t = node_ids[t['i']]
+            for m in msgs:
+                if m[0] in ('/s_new', '/g_new', '/p_new') and not scproto.conforms(m):
+                    got_t = m[1][3][1] if m[0] == '/s_new' else m[1][2][1]
+                    if want_t is not None and got_t != want_t:
+                        bad.append((None, 'op %d (%s): target %s requested, creation command names target %s' % (i, o, t, got_t)))
+        if depth == 0 and st['exc'] is None and 'n' in op and o.startswith(('n_', 'g_')) and msgs:
+            own = node_ids[op['n']] if op['n'] < len(node_ids) else None
+            for m in msgs:
+                if scproto.conforms(m) or own is None:
+                    continue
+                if m[0] in ('/g_head', '/g_tail'):
+                    g = default_group if op.get('t') is None else node_ids[op['t']]
+                    if [m[1][0][1], m[1][1][1]] != [g, own]:
+                        bad.append((None, 'op %d (%s): %s %s, expected group %s node %s' % (i, o, m[0], [a[1] for a in m[1]], g, own)))
+                elif m[0] in ('/n_before', '/n_after'):
+                    if [m[1][0][1], m[1][1][1]] != [own, node_ids[op['t']]]:
+                        bad.append((None, 'op %d (%s): %s %s, expected %s' % (i, o, m[0], [a[1] for a in m[1]], [own, node_ids[op['t']]])))
+                elif m[1] and m[1][0][0] == 'i' and m[1][0][1] != own:
+                    bad.append((None, 'op %d (%s): %s addresses node %s, the object has id %s' % (i, o, m[0], m[1][0][1], own)))
         # M3: creation command carries the object's own id
         if depth == 0 and created:
             got = [m[1][0][1] for m in msgs if m[0] in ('/b_alloc', '/b_allocRead', '/b_allocReadChannel')]
@@ -608,6 +657,17 @@ FIXED_HISTORIES = [
         {'op': 'synth', 'ctor': 'init', 'def': 'default', 'args': None, 'target': {'t': 'none'}, 'action': 'addToHead', 'same_id': False},
         {'op': 'n_set', 'n': 0, 'args': [{'v': 'd', 'x': [[{'v': 's', 'x': 'freq'}, {'v': 'i', 'x': 440}],
                                                           [{'v': 's', 'x': 'amp'}, {'v': 'l', 'x': [{'v': 'f', 'x': '1/4'}, {'v': 'f', 'x': '1/2'}]}]]}]}]},
+    {'cls': 'valid', 'tags': ['fixed:numeric-targets'], 'ops': [
+        {'op': 'group', 'par': False, 'ctor': 'init', 'target': {'t': 'int', 'x': 0}, 'action': 'addToHead'},
+        {'op': 'synth', 'ctor': 'init', 'def': 'default', 'args': None, 'target': {'t': 'int', 'x': 0}, 'action': 'addToTail', 'same_id': False},
+        {'op': 'synth', 'ctor': 'new_paused', 'def': 'default', 'args': None, 'target': {'t': 'int', 'x': 1}, 'action': 0, 'same_id': False},
+        {'op': 'group', 'par': True, 'ctor': 'init', 'target': {'t': 'int', 'x': 1000}, 'action': 'addAfter'},
+        {'op': 'basic_new', 'id': 0},
+        {'op': 'basic_new', 'id': 1},
+        {'op': 'n_move_to_head', 'n': 1, 't': 4},
+        {'op': 'n_move_to_tail', 'n': 2, 't': 5},
+        {'op': 'n_move_before', 'n': 1, 't': 4},
+        {'op': 'g_free_all', 'n': 4}]},
     {'cls': 'valid', 'tags': ['fixed:bind'], 'ops': [
         {'op': 'group', 'par': False, 'ctor': 'init', 'target': {'t': 'none'}, 'action': 'addToHead'},
         {'op': 'bind_enter'},
